@@ -91,6 +91,7 @@ type probeRec struct {
 	Label string
 	T     *Term
 	S     *SliceV
+	Const string
 }
 
 type keccakApp struct {
